@@ -53,6 +53,11 @@ def replay_stage(ctx, logcfgs, wanted, limit=None, rng=None):
             if any(x["order"] or x["rows"] for x in b):
                 ctx.nontrivial(("A", c, str([(x["x"], x["order"], str(x["rows"]), x["fault"], x["choice"]) for x in b])))
             for (clause, i, detail) in probs:
+                if clause == "replay.not_followed":
+                    # the code uses other random primitives than the behaviour scripts: not a violation by itself
+                    # (the law of the code's own draws is judged by C04's enumeration and statistics)
+                    ctx.skip("behaviours the code could not follow (different random primitives / number of draws)")
+                    continue
                 if wanted(clause):
                     nprob += 1
                     ctx.violation(clause, "config=%s call=%d fault=%s" % (c, i + 1, [x["fault"] for x in b]),
